@@ -301,3 +301,19 @@ modelled! {
         crate::c02::iter_protocol(6)
     }
 }
+
+// ---------------------------------------------------------------- C03-d tokenizer on one arbitrary character
+#[kani::proof]
+#[kani::unwind(2)]
+fn c03_d_token_one_char() {
+    // any single Unicode scalar value: the token has length >= 1, <= the text, and ends on a char boundary
+    let ss = crate::sym::SymStr::<1>::any();
+    kani::assume(ss.n == 1);
+    let s = ss.as_str();
+    let (_kind, len) = syntax::decide_next_token(s);
+    assert!(len >= 1, "empty token: the tokenizer would not advance");
+    assert!(len <= s.len(), "token longer than the text");
+    assert!(s.is_char_boundary(len), "token ends inside a character: slicing the source panics");
+    kani::cover!(s.len() == 4, "four-byte character");
+    kani::cover!(s.len() == 1 && len == 1, "ASCII character");
+}
